@@ -366,8 +366,36 @@ func (ts *TermStore) Implies(a, b *Term) *Term {
 	if a.IsTrue() {
 		return b
 	}
-	if a.IsFalse() || b.IsTrue() {
+	if a.IsFalse() || b.IsTrue() || a == b {
 		return ts.Bool(true)
+	}
+	// conjuncts of b already among the conjuncts of a are dropped
+	if a.kind == kApp && a.op == "and" {
+		have := map[int]bool{}
+		for _, x := range a.args {
+			have[x.id] = true
+		}
+		if have[b.id] {
+			return ts.Bool(true)
+		}
+		if b.kind == kApp && b.op == "and" {
+			var rest []*Term
+			for _, x := range b.args {
+				if !have[x.id] {
+					rest = append(rest, x)
+				}
+			}
+			if len(rest) == 0 {
+				return ts.Bool(true)
+			}
+			if len(rest) < len(b.args) {
+				b = ts.And(rest...)
+			}
+		}
+	}
+	// (=> a (=> a c)) = (=> a c)
+	if b.kind == kApp && b.op == "=>" && b.args[0] == a {
+		return b
 	}
 	return ts.mk(kApp, "=>", SBool, a, b)
 }
@@ -524,6 +552,12 @@ func (ts *TermStore) ConstArr(sort Sort, v *Term) *Term {
 
 // strings / sequences share the seq operations syntax in SMT-LIB (str.* for String, seq.* for Seq)
 func (ts *TermStore) Len(s *Term) *Term {
+	if s.kind == kApp && s.op == "ite" {
+		return ts.Ite(s.args[0], ts.Len(s.args[1]), ts.Len(s.args[2]))
+	}
+	if s.kind == kApp && (s.op == "seq.++" || s.op == "str.++") {
+		return ts.Add(ts.Len(s.args[0]), ts.Len(s.args[1]))
+	}
 	if s.sort == SString {
 		if l, ok := s.StrLit(); ok {
 			return ts.Int(int64(len(l)))
@@ -586,6 +620,9 @@ func (ts *TermStore) Extract(s, off, n *Term) *Term {
 
 // Nth: element i; for String yields the Int code of the byte.
 func (ts *TermStore) Nth(s, i *Term) *Term {
+	if s.kind == kApp && s.op == "ite" {
+		return ts.Ite(s.args[0], ts.Nth(s.args[1], i), ts.Nth(s.args[2], i))
+	}
 	if s.sort == SString {
 		return ts.mk(kApp, "str.to_code", SInt, ts.mk(kApp, "str.at", SString, s, i))
 	}
@@ -866,4 +903,56 @@ func (ts *TermStore) patterns(bv, body *Term) []*Term {
 		out = out[:3]
 	}
 	return out
+}
+
+// Subst replaces every occurrence of from by to.
+func (ts *TermStore) Subst(t, from, to *Term) *Term {
+	memo := map[int]*Term{}
+	var walk func(t *Term) *Term
+	walk = func(t *Term) *Term {
+		if t == from {
+			return to
+		}
+		if len(t.args) == 0 {
+			return t
+		}
+		if r, ok := memo[t.id]; ok {
+			return r
+		}
+		changed := false
+		na := make([]*Term, len(t.args))
+		for i, a := range t.args {
+			na[i] = walk(a)
+			if na[i] != a {
+				changed = true
+			}
+		}
+		r := t
+		if changed {
+			r = ts.mk(t.kind, t.op, t.sort, na...)
+		}
+		memo[t.id] = r
+		return r
+	}
+	return walk(t)
+}
+
+// Skolemize replaces universally quantified variables in positive positions of a goal by fresh constants.
+func (ts *TermStore) Skolemize(g *Term) *Term {
+	switch {
+	case g.kind == kQuant && g.op == "forall":
+		sk := ts.Fresh("sk!"+strings.Trim(g.args[0].op, "?"), g.args[0].sort)
+		return ts.Skolemize(ts.Subst(g.args[1], g.args[0], sk))
+	case g.kind == kApp && g.op == "=>":
+		return ts.mk(kApp, "=>", SBool, g.args[0], ts.Skolemize(g.args[1]))
+	case g.kind == kApp && (g.op == "and" || g.op == "or"):
+		na := make([]*Term, len(g.args))
+		for i, a := range g.args {
+			na[i] = ts.Skolemize(a)
+		}
+		return ts.mk(kApp, g.op, SBool, na...)
+	case g.kind == kApp && g.op == "ite" && g.sort == SBool:
+		return ts.mk(kApp, "ite", SBool, g.args[0], ts.Skolemize(g.args[1]), ts.Skolemize(g.args[2]))
+	}
+	return g
 }
